@@ -18,6 +18,61 @@ CLAIMS = {
             "the compiled kernel (bit level); the float64 1e-6 clause is sampled against the exact rational solution.",
             "6/C01", "Lean 4 proof (LDL^T algebra, definiteness) + exact/bitwise model-code correspondence",
             COMMON_TB + "Not proved: IEEE rounding (float clause sampled)."),
+    "C02": ("Lean theorems (any ordered field): for all seven kernels incl. robust GCV, two encodings of the same observations (same mask, same valid values, any placeholder) "
+            "give the same curve and lambda (gu/pgu/wcv/wcvp by construction of the repaired kernels, V-curve kernels through ws2d_congr_masked and the w factor of fit / "
+            "asymmetric weights); pass-through iff fewer than 2 (5) valid cells; the curve at missing cells is the unique solution of the normal equations with unit weight "
+            "on valid cells (gap filling). Model tied to the compiled kernels bit for bit; oracle: real calls with placeholders below/inside/above the range, NaN, +-inf.",
+            "6/C02", "Lean 4 proof (masked congruence of the LDL^T solve) + bitwise model-code correspondence", COMMON_TB + "Float rounding not proved; curves leaving int16 are outside the claim."),
+    "C03": ("Lean theorems: gu returns the unique PLS minimiser with unit weight on valid cells, lambda=0 returns the input; half-even rounding spec (|r-x|<=1/2, ties to even); "
+            "every re-weighting pass of pgu solves the weighted normal equations with weights w*p / w*(1-p) that stay in contract, and an early stop is a fixed point of the "
+            "expectile equations (uniqueness of that fixed point proved). Compiled band compared with the rounding of the EXACT rational curve (model at Rat) and with the model at Float.",
+            "6/C03", "Lean 4 proof (PLS minimiser, IRLS invariants) + exact/bitwise correspondence", COMMON_TB + "Float rounding sampled against the exact curve."),
+    "C04": ("Lean theorems for arbitrary log/sqrt/pow: the selected index is the first strict minimum of the V-curve, lambda is the log10-midpoint of two consecutive grid entries, "
+            "the returned curve is the fixed-lambda (asymmetric) smoother's curve at the reported lambda (warm start of the sweep does not leak), grid choice by lc. "
+            "Oracle: V-curve recomputed with the compiled ws2d core, measured tie margin; real ws2dgu/ws2dpgu at the reported lambda; sgrid float32; lc grids; _tyx variant.",
+            "6/C04", "Lean 4 proof (argmin, self-consistency) + bitwise correspondence", COMMON_TB + "Floating-point ties outside the theorems (measured margin). Known finding: lc = NaN in the gufunc."),
+    "C05": ("Lean theorems: GCV sweep selects the first minimum below 1e15, lambda on the grid, non-robust curve = fixed-lambda smoother at that lambda; robust weights lie in [0,1] "
+            "and vanish on missing cells, a MAD at noise level keeps the weights, and (after the repairs) at least two weighted cells always remain, hence the robust band is the unique "
+            "weighted PLS curve at a grid lambda (never degenerate); constant/linear series returned; result depends on valid cells only.",
+            "6/C05", "Lean 4 proof (sweep minimum, robust-weight invariants, InContract preservation) + bitwise correspondence", COMMON_TB + "Float ties by measured margin."),
+    "C06": ("Lean theorems from uniqueness (C01): affine series reproduced (gap filling on the line), shift and reversal equivariance of ws2d, lifted to gu, optv (fit and roughness invariant), "
+            "wcv incl. robust (threshold shift-invariant), affine preservation for all variants incl. asymmetric; asymmetric shift proved when both runs reach the (unique) expectile fixed point "
+            "(unconditional statement is not a theorem of the algorithm: loop starts from the zero curve) and otherwise sampled by pairs of real calls.",
+            "6/C06", "Lean 4 proof (uniqueness => equivariance) + bitwise correspondence + paired real calls", COMMON_TB + "Asymmetric offset: partial (converged case proved)."),
+    "C07": ("Lean theorems with log/digamma/gammainc/ndtri/root as parameters: the loop/counter model of gammastd equals the declarative definition (p0, window, positive values, Thom start, +-40% bracket, "
+            "nodata/negative -> nodata, four unfittable exits); gammafit uses exactly the window's positive cells; a*b = mean; brentq bracketing invariants and exits. Model tied to the compiled kernel bit for bit "
+            "through an interactive SciPy oracle; independent SciPy evaluation of the formula as oracle.",
+            "6/C07", "Lean 4 proof (refinement to a declarative spec) + bitwise correspondence with oracle-supplied special functions", COMMON_TB + "PARTIAL: bracketing of the MLE root by Thom +-40% and special-function accuracy are sampled."),
+    "C08": ("Lean theorems: SPI is monotone in the observation within a pixel (under monotone gammainc/ndtri, root >= 0), stored index saturates in [-32768,32767] and is monotone (no wrap), "
+            "total function of the right length, nodata/negative -> nodata, unfittable -> all nodata, grouped result is per-group (one bad pixel/group affects only itself).",
+            "6/C08", "Lean 4 proof (monotonicity, saturation, totality) + bitwise correspondence", COMMON_TB + "Monotonicity of SciPy's float special functions is an assumption exercised by the oracle."),
+    "C09": ("Lean theorems: searchsorted left/right on a sorted axis select exactly {t | begin<=t<=end}; the window checks raise iff fewer than two steps (per group); attributes are first/last step in the window; "
+            "to_linspace induces exactly the label partition for any ordered label type; grouped SPI decomposes into per-group ungrouped SPI, is invariant under injective relabelling, single group = ungrouped.",
+            "6/C09", "Lean 4 proof (sorted-list search, gather/scatter decomposition) + accessor-level correspondence", COMMON_TB + "pandas/NumPy searchsorted, unique, datetime64 are external."),
+    "C10": ("Lean theorems: S = sum of signs over pairs, tau-a, tie-corrected variance (both branches), continuity-corrected Z, flag iff p<alpha under stated hypotheses on erf, Sen slope = median of the n(n-1)/2 "
+            "pairwise slopes; invariance under strictly increasing maps, sign flip under negation/reversal, linear scaling of the slope. Exhaustive correspondence over all rank patterns up to length 6/7.",
+            "6/C10", "Lean 4 proof (pair sums, multiset ties, median) + exhaustive bounded correspondence", COMMON_TB + "erf/sqrt/ndtri are parameters."),
+    "C11": ("TRANSLATOR-TIED: the Lean model of dekad.py is regenerated from the source's AST on every run and 72 theorems are re-checked about the generated definitions: partition of every instant "
+            "(all dates 0001..9999, all microseconds), abutting dekads, ndays, round trips date/raw/label (incl. string formatting/parsing), order isomorphism, hash, integer-translation laws; "
+            "CPython's ord2ymd/ymd2ord round trip proved. Correspondence: all 359,964 dekads vs the real class; PyDate vs CPython on all 3,652,059 days (thorough).",
+            "6/C11", "Lean 4 proof about a translator-generated model + exhaustive correspondence", COMMON_TB + "translate_dekad.py and the PyDate model of CPython datetime are trusted (validated exhaustively)."),
+    "C12": ("Lean theorems for every thread count and every interleaving: any wrapper program satisfying the decidable SafeLazyInit never calls None/placeholder and the cache is monotone; any prange body whose "
+            "access summary is RowLocal gives the sequential store for every merge of row action lists (any thread count, any deal of rows); pixel-map equivariance under permutation/chunking. Instances by decide on "
+            "summaries REGENERATED from _helper.py and ws2doptvplc.py. Runtime side sampled: all accessor ops numpy vs dask x chunkings x schedulers x dim orders, 1..16 Numba threads, first-call races.",
+            "6/C12", "Lean 4 proof (schedule induction, commutation of independent actions) on generated effect summaries + configuration sampling", COMMON_TB + "PARTIAL: dask/xarray/Numba runtimes are not modelled."),
+    "C13": ("Lean theorems on the logic that differs between the two worlds: int64 accumulators of autocorr / Mann-Kendall / run counters cannot overflow under the documented bounds (wrapping arithmetic = unbounded), "
+            "int16 store is the identity exactly on in-range values. 35 programs compared compiled vs fully interpreted source, and the Lean model as pivot for the core.",
+            "6/C13", "Lean 4 proof (no-overflow of fixed-width accumulators) + compiled-vs-interpreted differential runs", COMMON_TB + "PARTIAL: Numba/LLVM code generation and cython_special bindings are not verified."),
+    "C14": ("Lean theorems for every shape in contract: every index of the ws2d trace is within -n..n-1 for n>=2 (incl. wrap-around reads at n=2,3; sharp at n=1), every output cell written; tinterpolate scatter/run loops, "
+            "zonal ids, rolling windows (any window), V-curve grid indexing (sharp at one grid point), smoothers call ws2d in contract. Traces tied to the source by logged index sets and to compiled code by NUMBA_BOUNDSCHECK=1 runs; "
+            "unwritten cells detected by differently prefilled output buffers.",
+            "6/C14", "Lean 4 proof (index-trace bounds) + logged-index correspondence + bounds-checked execution", COMMON_TB + "Numba's bounds-check instrumentation trusted."),
+    "C15": ("Lean theorems: the ten accumulators equal the declarative sums; the value is cov/sqrt(vX vY) of the mean-filled vectors; Cauchy-Schwarz gives [-1,1]; degenerate cases 0; positive affine invariance; "
+            "int and float encodings share one model. Correspondence bit-level; oracle: NumPy mean-filled Pearson reference, both layouts, dask.",
+            "6/C15", "Lean 4 proof (Cauchy-Schwarz, refinement to Pearson) + bitwise correspondence", COMMON_TB + "x^-1/2 is a parameter (hypothesis IsRsqrt); float accumulation sampled."),
+    "C20": ("Lean theorems: scatter at marks, run-length means per maximal label run, constant series -> constant, series linear in day number -> exact period means (from ws2d_affine), output length = number of runs. "
+            "Compiled kernel vs model at Float (bit level) and at Rat (exact daily curve).",
+            "6/C20", "Lean 4 proof (scatter/run decomposition, affine preservation) + exact/bitwise correspondence", COMMON_TB + "Conditioning of the 1e-5 system in float64 sampled up to ~4000 days."),
     "C16": ("Lean theorems: per-zone (sum,count) equals sum/length of exactly the pixels with zone=k, value!=nodata, zone!=zone-nodata; "
             "permutation invariance; zone-nodata contributes nowhere; count<=#pixels and |sum|<=count*B (exactness bound for the float64/int64 "
             "accumulators); Float32 saturation witness of the pinned defect. Model tied to do_mean and the accessor (numpy+dask) by differential runs; "
